@@ -27,9 +27,11 @@ def impls_of_site(s):
     return out
 
 
-def check_headers(cx, rep):
+def check_headers(cx, rep, needles=None):
     n = 0
     for fn in cx.handler_fns():
+        if needles is not None and not any(x in fn.qname for x in needles):
+            continue
         sites, bad = cx.all_sites(fn)
         where = fn.qname
         fw = cx.fw(fn)
@@ -45,7 +47,9 @@ def check_headers(cx, rep):
             for impl, kind in impls_of_site(s):
                 n += 1
                 check_one_header(cx, fn, s, impl, kind, rep)
-    rep.floor('HDR', 30, '(39 impl templates today)')
+    if needles is None:
+        rep.floor('HDR', 30, '(39 impl templates today)')
+    return n
 
 
 def hole_of_generics_list(g):
@@ -523,4 +527,19 @@ def run(cx, tier='quick'):
     rep.floor('BOUND-USE', 5)
     rep.assumptions += ['syn::Generics::split_for_impl reproduces parameters with inline bounds minus defaults and the where-clause']
     rep.not_decided += ['syn\'s printing of generics']
+    # the predicates handed to the header: BND (what is collected, under which conditions, for which paths) — shared with C11
+    from .c11 import check_handler as _bnd_handler
+    from ..facts import Facts as _Facts
+    from ..report import Report as _Report
+    sub = _Report('C12')
+    f_ = _Facts(cx)
+    for t_, sh_, fn_ in cx.shape_handlers():
+        _bnd_handler(cx, fn_, t_, sh_, sub, f_)
+    for fnd in sub.findings:
+        if fnd.rule == 'BND' and not any(x.key == fnd.key for x in rep.findings):
+            rep.findings.append(fnd)
+    for r_, i_, v_ in sub.checked:
+        if r_ == 'BND':
+            rep.checked.append((r_, i_, v_))
+            rep.counts[r_] = rep.counts.get(r_, 0) + 1
     return rep
